@@ -100,6 +100,23 @@ class Gen:
         self.rng.shuffle(ps)
         return ps
 
+    def periodic(self):
+        """patterns with nested borders before a differing byte ((ab)^k c d): failure chains of several hops through
+        non-match nodes, plus short patterns reached only at the end of the chain"""
+        self.note("periodic")
+        unit = self.word(b"ab", 1, 2) if self.rng.random() < 0.7 else self.word(b"abc", 2, 3)
+        k = self.rng.randint(2, 4)
+        tail = bytes([self.rng.choice(b"cdx")]) + self.word(b"dxy", 0, 2)
+        ps = [unit * k + tail]
+        if self.rng.random() < 0.7:
+            ps.append(tail[:1] + self.word(b"xyq", 1, 2))
+        if self.rng.random() < 0.5:
+            ps.append(self.word(b"zq", 1, 2))
+        if self.rng.random() < 0.4:
+            ps.append(unit + tail[:1])
+        self.rng.shuffle(ps)
+        return ps
+
     def casey(self):
         self.note("casey")
         alpha = b"aAbBzZ@[`{" + bytes([0xC1, 0xE1])
@@ -111,8 +128,8 @@ class Gen:
                 for _ in range(self.rng.randint(1, 6))]
 
     def pats(self, empty=True, kinds=None):
-        kinds = kinds or ["tiny", "tiny3", "nest", "akb", "suffix_chain", "failchain", "failchain", "fanout_small", "casey",
-                          "random_bytes"]
+        kinds = kinds or ["tiny", "tiny3", "nest", "akb", "suffix_chain", "failchain", "failchain", "periodic", "periodic",
+                          "fanout_small", "casey", "random_bytes"]
         k = self.rng.choice(kinds)
         if k == "tiny":
             return self.tiny(b"ab", 4, 4, empty)
@@ -124,6 +141,8 @@ class Gen:
             return self.akb()
         if k == "suffix_chain":
             return self.suffix_chain()
+        if k == "periodic":
+            return self.periodic()
         if k == "failchain":
             ps = self.failchain()
             return ps if empty else ([p for p in ps if p] or [b"ab"])
@@ -154,6 +173,11 @@ class Gen:
         alpha, foreign = self.alphabet(pats, fold)
         r = self.rng.random()
         n = self.rng.randint(0, maxlen)
+        if r < 0.15 and pats:
+            # a long pattern cut just before its end, then a foreign byte, then whole patterns (exercises long failure chains)
+            p = max(pats, key=len)
+            out = p[:-1] + bytes([foreign]) + b"".join(self.rng.choice(pats) for _ in range(2))
+            return (bytes([foreign]) * self.rng.randint(0, 2) + out)[: maxlen + 8]
         if r < 0.4 or not pats:
             pool = alpha + bytes([foreign])
             return bytes(self.rng.choice(pool) for _ in range(n))
